@@ -41,6 +41,11 @@ func (l *Lifter) classifyPut(stem string, val ast.Expr, pos token.Pos) Item {
 	}
 	it := Item{Kind: KScalar, Prim: stem, Pos: pos}
 	if conv != "" {
+		if l.invalidType(inner) {
+			// the emitted file does not type-check here (C12 reports it): whether
+			// the operand is an enum cannot be told
+			return Item{Kind: KUnknown, Text: "conversion of a value whose type does not check: " + Canon(val), Pos: pos}
+		}
 		// an integer conversion of an enum-typed operand
 		if t := l.Info.TypeOf(inner); t != nil {
 			if _, named := t.(*types.Named); named {
